@@ -270,18 +270,22 @@ func (p *CodeBuilder) startFuncBody(fn *Func, src []ast.Node, old *funcBodyCtx) 
 	p.startBlockStmt(fn, src, "func "+fn.Name(), &old.codeBlockCtx)
 	scope := p.current.scope
 	sig := fn.Type().(*types.Signature)
-	insertParams(scope, sig.Params())
-	insertParams(scope, sig.Results())
+	insertParams(p.pkg, scope, sig.Params())
+	insertParams(p.pkg, scope, sig.Results())
 	if recv := sig.Recv(); recv != nil {
+		if name := recv.Name(); name != "" && name != "_" {
+			p.pkg.useName(name)
+		}
 		scope.Insert(recv)
 	}
 	return p
 }
 
-func insertParams(scope *types.Scope, params *types.Tuple) {
+func insertParams(pkg *Package, scope *types.Scope, params *types.Tuple) {
 	for i, n := 0, params.Len(); i < n; i++ {
 		v := params.At(i)
 		if name := v.Name(); name != "" && name != "_" {
+			pkg.useName(name) // an import referenced in the body must not be given this name
 			scope.Insert(v)
 		}
 	}
